@@ -83,6 +83,7 @@ def group_counting(run, ctx):
             run.violation(fam, label, "named-form/" + pref, w, "the named-group form %s must count the group, parse the name after %s byte(s), record it and skip the prefix; shape not found" % (pref, off))
     run.ok(fam, label, w, n, "parse_group result paths %s: exactly the Group-producing ones count and name" % kinds)
     # only parse_group writes curr_group
+    piece_keeps_atom(run, ctx)
     label = "curr_group-writer"
     writers = set()
     for path, f2 in ctx.facts.hir.items():
@@ -93,6 +94,55 @@ def group_counting(run, ctx):
         run.violation(fam, label, "writers", "src/parse.rs", "curr_group is written in %s; only parse_group may count groups" % sorted(writers))
     else:
         run.ok(fam, label, w, 1, "curr_group written only in parse_group")
+
+
+def _mentions(text, names):
+    return any(re.search(r"(?<![A-Za-z_0-9.])%s(?![A-Za-z_0-9(])" % re.escape(n), text or "") for n in names)
+
+
+def piece_keeps_atom(run, ctx):
+    """parse_piece hands the parsed atom on, bare or wrapped: a quantifier never makes the atom (and the groups that
+    were already counted and named while parsing it) disappear from the tree."""
+    fam, label = "PARSE", "piece-keeps-atom"
+    fn = _fn(run, ctx, "parse_piece", fam, label)
+    if fn is None:
+        return
+    n = 0
+    for p in S.paths_of(fn["body"], max_paths=200000):
+        if not feasible(p):
+            continue
+        v = S.ret_value(p)
+        if v is None or not v.startswith("Ok(("):
+            continue
+        holders = None
+        for ev in p.events:
+            if ev.kind == "let" and holders is None and "self.parse_atom(" in (ev.b or ""):
+                m = re.match(r"^\((\w+),(\w+)\)$", ev.a or "")
+                if m:
+                    holders = {m.group(2)}
+                continue
+            if holders is None:
+                continue
+            if ev.kind == "let" and re.match(r"^\w+$", ev.a or ""):
+                if _mentions(ev.b, holders):
+                    holders.add(ev.a)
+                else:
+                    holders.discard(ev.a)
+            elif ev.kind == "assign" and re.match(r"^\w+$", ev.a or "") and ev.b == "=":
+                if _mentions(ev.c, holders):
+                    holders.add(ev.a)
+                else:
+                    holders.discard(ev.a)
+        if holders is None:
+            run.violation(fam, label, "anchor-missing/atom", H.where(fn), "anchor-missing: parse_piece does not bind `(ix, atom) = self.parse_atom(..)?`")
+            return
+        n += 1
+        m = re.match(r"^Ok\(\((.*?),(.*)\)\)$", v)
+        expr = m.group(2) if m else v
+        if not _mentions(expr, holders):
+            run.violation(fam, label, "atom-dropped", H.where(fn), "parse_piece returns %s on a path where that value no longer contains the parsed atom: groups opened inside the atom were already counted and named, so captures_len / capture_names / group numbers would disagree with the tree (e.g. (a){0}b)" % v[:60])
+    run.floor(fam, label, H.where(fn), n, 4, "Ok paths of parse_piece")
+    run.ok(fam, label, H.where(fn), n, "%d Ok paths of parse_piece, each returns the atom or an expression wrapping it" % n)
 
 
 def names_api(run, ctx):
@@ -190,6 +240,42 @@ def backref_registration(run, ctx):
             bad += 1
             run.violation(fam, label, "ctor/%s/%s" % (sp, var), H.where(nd), "Expr::%s is constructed in %s outside a create_expr closure of parse_named_backref / parse_numbered_backref: the group would not be registered in `backrefs`" % (var, sp))
     run.floor(fam, label, "src/parse.rs", len(sites), 11, "constructions of Expr::Backref / SubroutineCall / BackrefExistsCondition in the parser")
+    # `backrefs` only grows: after a group was registered nothing may take it out again (MIR: writes / &mut borrows of Parser.backrefs)
+    PA = [p for p in ctx.facts.adts if strip_generics(p) == "parse::Parser"]
+    nb = 0
+    if len(PA) != 1:
+        run.violation(fam, label, "anchor-missing/Parser", "src/parse.rs", "anchor-missing: struct parse::Parser")
+    else:
+        for path, body in ctx.cg.bodies.items():
+            sp = strip_generics(path)
+            muts = {}      # local holding &mut self.backrefs -> span
+            for bi, b in enumerate(body.blocks):
+                for st in b["stmts"]:
+                    if st["k"] != "Assign":
+                        continue
+                    pl = st["place"]
+                    fl = [x for x in (pl.get("p") or []) if x["k"] == "Field" and x.get("adt") == PA[0] and x.get("name") == "backrefs"]
+                    if fl:
+                        nb += 1
+                        run.violation(fam, label, "backrefs-overwritten/" + sp, "%s:%d" % (st["span"]["file"], st["span"]["line"]),
+                                      "%s assigns Parser.backrefs: the set of referenced groups may only grow (a group taken out again is no longer marked hard and can be swallowed into an automata delegate, e.g. (?:(a)|a)(?(1)x|y))" % sp)
+                    rv = st["rv"]
+                    if rv["k"] == "Ref" and rv.get("mut"):
+                        fl = [x for x in (rv["place"].get("p") or []) if x["k"] == "Field" and x.get("adt") == PA[0] and x.get("name") == "backrefs"]
+                        if fl:
+                            muts[pl.get("l")] = st["span"]
+            if not muts:
+                continue
+            for callee, bi, t in ctx.cg.calls.get(path, []):
+                for a in t["args"]:
+                    loc = (a.get("place") or {}).get("l") if isinstance(a, dict) else None
+                    if loc in muts:
+                        nb += 1
+                        cs = strip_generics(callee)
+                        if not cs.endswith("BitSet::insert"):
+                            run.violation(fam, label, "backrefs-mutated/%s/%s" % (sp, cs), "%s:%d" % (t["span"]["file"], t["span"]["line"]),
+                                          "%s passes &mut Parser.backrefs to %s: only BitSet::insert may change the set of referenced groups" % (sp, cs))
+        run.floor(fam, label, "src/parse.rs", nb, 2, "mutable uses of Parser.backrefs")
     run.ok(fam, label, "src/parse.rs", n, "%d reference constructions, all behind backrefs.insert(group) with the length bound" % len(sites))
 
 
@@ -241,6 +327,7 @@ def backref_spellings(run, ctx):
 # ---------------------------------------------------------------------------------------------
 
 def flags_rule(run, ctx):
+    literal_casei(run, ctx)
     fam, label = "PARSE", "flags"
     fn = _fn(run, ctx, "parse_flags", fam, label)
     if fn is None:
@@ -349,6 +436,30 @@ ESCAPE_TABLE = {
     "K": "Expr::KeepOut",
     "G": "Expr::ContinueFromPreviousMatchEnd",
 }
+
+
+def literal_casei(run, ctx):
+    """Every literal the parser builds from pattern text carries the case-insensitivity flag in force, whichever
+    spelling (raw character, \\x.., \\u...., escaped punctuation) produced it."""
+    fam, label = "PARSE", "literal-casei"
+    n = 0
+    for path, fn in sorted(ctx.facts.hir.items()):
+        sp = strip_generics(path)
+        if not sp.startswith("parse::Parser::"):
+            continue
+        for nd in H.walk(fn["body"]):
+            if nd.get("k") == "Struct" and nd.get("adt", "").endswith("Expr") and nd.get("variant") in ("Literal", "Delegate"):
+                n += 1
+                d = {f["name"]: H.canon(f["e"]) for f in nd["fields"]}
+                if nd.get("variant") == "Delegate":
+                    # classes: the flag in force, or `false` for the fixed letter-free classes (\\h, \\H, \\R, `\\n*$`)
+                    if d.get("casei") not in ("self.flag(FLAG_CASEI)", "false"):
+                        run.violation(fam, label, "casei-class/%s" % sp, H.where(nd), "Expr::Delegate built in %s with casei = %s (expected the flag in force)" % (sp, d.get("casei")))
+                    continue
+                if d.get("casei") != "self.flag(FLAG_CASEI)":
+                    run.violation(fam, label, "casei/%s" % sp, H.where(nd), "Expr::Literal built in %s with casei = %s: every spelling of a character must take the flag in force (`self.flag(FLAG_CASEI)`), otherwise e.g. (?i)\\xE9 and (?i)\u00e9 parse to different trees" % (sp, d.get("casei")))
+    run.floor(fam, label, "src/parse.rs", n, 6, "Expr::Literal / Expr::Delegate constructions in Parser methods")
+    run.ok(fam, label, "src/parse.rs", n, "%d Expr::Literal / Expr::Delegate constructions in Parser methods take casei from the flag in force (fixed letter-free classes: false)" % n)
 
 
 def escape_table(run, ctx):
